@@ -147,7 +147,11 @@ macro_rules! impl_from_slice_conversions {
                     // Convert to our frame slice if possible.
                     let frame_slice = match <&mut [[S; $N]]>::from_sample_slice_mut(sample_slice) {
                         Some(slice) => slice,
-                        None => return None,
+                        None => {
+                            // Take ownership over the slice again so that it is deallocated.
+                            drop(unsafe { Box::from_raw(slice_ptr) });
+                            return None;
+                        }
                     };
                     let ptr = frame_slice as *mut [[S; $N]];
 
